@@ -286,11 +286,15 @@ def ob_api(ob):
     reps = [''] + (SEC_REPEAT[:2] if kind == 'sec' else LOT_REPEAT[:2])
     if small:
         reps = reps[:2]
+    api_seps = API_SEPS if (small or kmax < 3) else S_SEPS
+    if kmax >= 3 and not small:
+        nums_tab = (2, 9, 36) if kind == 'sec' else (1, 9, 100)
+        words = words[:4]
 
     def run(k, w, ns, ss, rp):
         k = choose(k, range(1, kmax + 1))
         nums = [choose(n, nums_tab) for n in ns[:k]]
-        seps = [choose(s, API_SEPS) for s in ss[:k - 1]]
+        seps = [choose(s, api_seps) for s in ss[:k - 1]]
         for a, b in zip(seps, seps[1:]):
             if a.lower() in THRU and b.lower() in THRU:
                 return True
@@ -314,7 +318,7 @@ def ob_api(ob):
             a = v['args']
             k = cl(a['k'], kmax) + 1
             nums = [nums_tab[cl(a[f'n{i}'], len(nums_tab))] for i in range(k)]
-            seps = [API_SEPS[cl(a[f's{i}'], len(API_SEPS))] for i in range(k - 1)]
+            seps = [api_seps[cl(a[f's{i}'], len(api_seps))] for i in range(k - 1)]
             rep = reps[cl(a['rp'], len(reps))]
             text = words[cl(a['w'], len(words))] + str(nums[0]) + ''.join(s + (rep if s.endswith(' ') or not rep else ' ' + rep) + str(n) for s, n in zip(seps, nums[1:]))
             out.append(violation(f'list-api:{kind}', f'{text!r}: {api_verdict(text, kind, nums, seps)}; {v["exc"]}', 'c05_api',
